@@ -735,4 +735,5 @@ func run(cx *lib.Ctx) {
 			res.Sample(c.in)
 		}
 	}
+	corrExpand(cx)
 }
